@@ -12,7 +12,8 @@
    One record per compiled project:  [id, prog, rule, outcome, ndiag]. *)
 EXTENDS Validity, IOUtils
 
-Rec == ndJsonDeserialize(IOEnv.TRACE)
+CONSTANT TraceFile       \* path of the ndjson observations (a constant, so TLC reads it once)
+Rec == ndJsonDeserialize(TraceFile)
 
 VARIABLE l
 Init == l = 1
@@ -24,7 +25,8 @@ Why(r) ==
   IF ~InSubset(r.prog) THEN "outside-subset"
   ELSE IF Valid(r.prog)
     THEN (IF Accepted(r) THEN "" ELSE IF Rejected(r) THEN "valid-rejected" ELSE "valid-crashed")
-    ELSE (IF Rejected(r) THEN "" ELSE IF Accepted(r) THEN "invalid-accepted" ELSE "invalid-crashed")
+    ELSE (IF Rejected(r) THEN "" ELSE IF Accepted(r) THEN "invalid-accepted"
+          ELSE IF r.outcome = "diagnostics" THEN "invalid-failed-without-diagnostic" ELSE "invalid-crashed")
 
 SetToSeq(S) == LET RECURSIVE F(_) F(X) == IF X = {} THEN <<>> ELSE LET x == CHOOSE y \in X : TRUE IN <<x>> \o F(X \ {x}) IN F(S)
 
